@@ -99,10 +99,12 @@ def cases(tier):
     # under-specified: species that appear only as neighbour (to-only) or only as centre (from-only) of a density entry
     for els in EK.ordered_subsets(EK.UNIVERSE, (2, 3)):
         for ne in range(1, len(els)):
-            for variant in range(3):
+            for variant in range(5):
                 k += 1
                 a, b = els[0], els[-1]
-                dens = [['%s->%s' % (a, b)], ['%s->%s' % (b, a)], ['%s->%s' % (a, b), '%s->%s' % (b, b), '%s->%s' % (a, a)]][variant]
+                # (variants 3 and 4: b occurs ONLY as a neighbour, in a row that is / is not the last one of its central species)
+                dens = [['%s->%s' % (a, b)], ['%s->%s' % (b, a)], ['%s->%s' % (a, b), '%s->%s' % (b, b), '%s->%s' % (a, a)],
+                        ['%s->%s' % (a, b), '%s->%s' % (a, a)], ['%s->%s' % (a, a), '%s->%s' % (a, b)]][variant]
                 nr, nrho = G[k % len(G)]
                 m = dict(fs=True, embed=list(els[:ne]), dens=dens, pairs=[], species='builtin', nr=nr, cutoff=2.5, nrho=nrho, cutoff_rho=50.0)
                 if not set(EK.model_elements(m)) >= set(els[:ne]):
